@@ -266,6 +266,11 @@ func c12Negatives() []*RejectCase {
 		{"prevented-listed-with-other-tags", []string{"A", "B"}, map[string]string{"B": `json:"b" wire:"-"`}, []string{"B"}, "prevented"},
 		{"empty-name", []string{"A"}, nil, []string{""}, "bad-field"},
 		{"name-with-space", []string{"A"}, nil, []string{"A "}, "bad-field"},
+		{"dotted-name-type-prefix", []string{"A", "B"}, nil, []string{"S.A"}, "bad-field"},
+		{"dotted-name-field-path", []string{"A", "B"}, nil, []string{"B.A"}, "bad-field"},
+		{"dotted-name-package-prefix", []string{"A"}, nil, []string{"app.A"}, "bad-field"},
+		{"dotted-name-leading-dot", []string{"A"}, nil, []string{".A"}, "bad-field"},
+		{"dotted-name-parent-prefix", []string{"A", "B"}, nil, []string{"Parent.A"}, "bad-field"},
 	}
 	for _, c := range cases {
 		for _, viaFields := range []bool{false, true} {
